@@ -106,6 +106,9 @@ def next_blocks_global(function: "Function", block: "BasicBlock") -> List["Basic
         callsub_blocks are connected to the subroutine entry blocks.
     """
     if block.is_retsub_block:
+        if block.subroutine == function.main:
+            # retsub is not part of a subroutine. The execution fails at runtime.
+            return []
         return function.return_point_blocks(block.subroutine)
     if block.is_callsub_block:
         return [block.called_subroutine.entry]
